@@ -30,7 +30,7 @@ ASSUMPTIONS = ["when a new-date notification must be sent is not stated by the p
                "episodes aborted by TrackRecord's duplicate-timestamp rejection (DESIGN 4.2-c) are judged on the delivered prefix"]
 REQUIRED = ["C04:exchange-exactly-once", "C04:delivery-sequence", "C04:second-observer", "C04:timestamps-nondecreasing", "C04:env-notification-stamp",
             "C04:clock-in-callback", "C04:rebalance-stamp", "C04:latency-refused"]
-REQUIRED_CATS = ["add_timesteps", "add_custom_events", "latency>0", "markov", "warmup", "late-fold", "episode-length", "event-after-grid", "event-before-grid",
+REQUIRED_CATS = ["second-env-same-transmitter", "add_timesteps", "add_custom_events", "latency>0", "markov", "warmup", "late-fold", "episode-length", "event-after-grid", "event-before-grid",
                  "event-at-latency-bound"]
 REQUIRED_HITS = ["Broker.rebalance"]
 TECHNIQUE = "runtime monitoring: recording observer + hook markers compared with an independent delivery-schedule model"
@@ -169,8 +169,20 @@ def case(ctx, i, tier):
 
     ctx.sample = {"grid": G, "latency": L, "markov": markov, "warmup": warm, "fold": [i0, i1], "episode_length": eplen,
                   "events": [[type(e).__name__, e.uid, e.time] for e in evs][:60]}
-    with ep.EpMonitor(sink):
-        for fold in ["training-set", "all", "training-set"]:
+    others = [x for x in (0, 1, 10, 30, 59.5) if x < min(gaps) and x != L]
+    second_env = bool(others) and rng.random() < 0.3
+    with ep.EpMonitor(sink) as epmon:
+        for run_i, fold in enumerate(["training-set", "all", "training-set"] + (["all"] if second_env else [])):
+            if run_i == 3:
+                # a NEW environment on the SAME transmitter with a different latency (data loaded
+                # once, environment rebuilt): the latent split must follow the new latency
+                L = rng.choice(others)
+                sink, sink2 = ep.Sink(), ep.Sink()
+                env = TradingEnv(action_space=BoxPortfolio([ETF("X"), ETF("Y")]), transmitter=tr,
+                                 state=ep.Rec(sink, features=[ep.RecAB(sink2)]), latency=L, episode_length=eplen)
+                sink.env = env
+                epmon.sinks.append(sink)
+                ctx.cat("second-env-same-transmitter")
             s, e_ = folds[fold]
             steps = sorted({G[slot(e)] for e in live if s <= G[slot(e)] <= e_})
             del sink.log[:]
